@@ -283,6 +283,10 @@ func (r *run) clientScript(p *peer, sc []WStep) *kit.Failure {
 				r.count("excluded:" + why) // known finding F48: insert right before a known tombstone
 				continue
 			}
+			if _, why := prog.GuardF35(d, prog.Step{Op: op, A: st.A, B: st.B, C: st.C}); why != "" && !kit.NoExclusions() {
+				r.count("excluded:" + why) // known finding F35: a range boundary inside a surrogate pair
+				continue
+			}
 			if _, err := prog.ApplyEdit(d, prog.Step{Op: op, A: st.A, B: st.B, C: st.C}); err != nil {
 				return kit.Failf("EDITFAIL", "c%d doc %d %s: %v", p.idx, st.D, op, err)
 			}
